@@ -133,6 +133,30 @@ impl Property for C15Prop {
                 let cut = 1 + rot % (ms.len() - 1);
                 let right = members.split_off(cut);
                 let (l, r) = (members.into_iter().reduce(|a, b| a | b).unwrap(), right.into_iter().reduce(|a, b| a | b).unwrap());
+                // a union that was printed (and asked about) before it was widened: what it prints afterwards
+                // is the widened type
+                // (`|=` may absorb members that lie below other members, so its result is only required
+                // to survive its own round trip: what it prints after the widening is what it is)
+                let mut grown = l.clone();
+                let _ = run::guarded(|| (grown.to_string(), grown.matches(&r), format!("{grown:?}").len()));
+                grown |= r.clone();
+                match run::guarded(|| Type::from_str(&grown.to_string())) {
+                    Ok(Ok(back)) if back == grown && Ty::from_real(&back) == Ty::from_real(&grown) => {}
+                    Ok(Ok(back)) => {
+                        return fail(
+                            "C15:roundtrip-after-widening",
+                            format!("a union printed as `{}`, then widened by |= `{}`, prints as `{}`, which parses to {} while the value is {}", l, r, grown, Ty::from_real(&back).print(), Ty::from_real(&grown).print()),
+                        );
+                    }
+                    Ok(Err(_)) => return fail("C15:unparsable-print", format!("a union widened by |= prints as `{grown}`, which does not parse")),
+                    Err(c) => return fail(format!("C15:display:{}", c.sig()), format!("printing a union widened by |= panicked")),
+                }
+                let seen = l.clone();
+                let _ = run::guarded(|| seen.to_string());
+                instances.push(("printed, then joined with |".into(), seen | r.clone()));
+                let seen = r.clone();
+                let _ = run::guarded(|| seen.to_string());
+                instances.push(("printed, then joined into another union".into(), l.clone() | seen));
                 instances.push(("built from two halves joined with |".into(), l.clone() | r.clone()));
                 instances.push(("built from two halves joined with | the other way round".into(), r | l));
             }
